@@ -37,7 +37,7 @@ ASSUMPTIONS = ["precondition 'genuinely symmetric' is decided by the harness (E,
                "tolerance 1e-7 * Y + max(1e-10, 1e-14 (L/gap)^4) natural units for integrated results (Y = sum_K w_K max|result_K|; "
                "natural unit = 1 for static calculators with use_factor=False, |constant_factor| for dynamic ones); "
                "1e-9 (1+|E|) for tabulated energies, 1e-7 * scale + max(1e-9, 1e-14 (L/gap)^p) for other tabulated values with "
-               "p = 2 (3, 4 for first, second k-derivatives): rounding noise of quantities that vanish by symmetry is "
+               "p = 2 (3, 4 for first, second k-derivatives; coefficient 1e-13 instead of 1e-14 when the smallest gap is below 2e-3): rounding noise of quantities that vanish by symmetry is "
                "~1e-16 (L/gap)^p, L = longest lattice vector (>= 1); gap = smallest gap above the degeneracy threshold on the grid; cases with gap < 2e-3 are "
                "labelled near-degenerate and not counted as non-trivial",
                "a mismatch is inconclusive when a tie witness exists: a gap within [0.5e-4, 2e-4] (degeneracy threshold 1e-4) or "
@@ -259,7 +259,10 @@ def check(case):
     def noise(power):
         """rounding noise of a quantity that contains (velocity/gap)^power ~ (L/gap)^power (L = longest lattice vector,
         hoppings are O(1)): ~1e-16 (L/gap)^power; two orders of margin"""
-        return 1e-14 * (max(1.0, Lmax) / min(1.0, gmin)) ** power
+        # (near-degenerate grids, gap < 2e-3: the margin is three orders - a Dirac point of graphene with spin-orbit gap
+        #  2.1e-4, i.e. 2.1 x the degeneracy threshold, showed 1.2e-14 (L/gap)^2 for a curvature that vanishes by symmetry;
+        #  such cases are labelled near-degenerate and never counted as non-trivial)
+        return (1e-13 if gmin < 2e-3 else 1e-14) * (max(1.0, Lmax) / min(1.0, gmin)) ** power
     found, labels = [], []
     nonzero = 0
 
